@@ -401,6 +401,7 @@ pub fn run_history_opt(rng: &mut Rng, init: Init, nunits: usize, oneshot: bool, 
 
     runner.crash_at = crash_at;
     // executor perturbations (implementation only): strict wake-only polling, a fresh waker for every poll
+    hub.lock().unwrap().mutate_backoff = rng.chance(1, 3);
     runner.strict = rng.chance(1, 2);
     runner.fresh = rng.chance(1, 2);
     // third perturbation: lock contention in mid-flight (see `Runner::contend`)
